@@ -156,8 +156,12 @@ def run(F, R):
     rd = [k for k in ku if k["name"].startswith("get")]
     if R.floor("C07-R5", "writers/readers of the storage key", min(len(wr), len(rd)), 1):
         for k in wr:
-            exp = "and_then(map(param1.0.state.server_dictated_poll_interval, |$1| as_micros($1)), |$1| ok(i64::try_from($1)))"
-            R.check("C07-R5", "writer:" + k["bv"].name.split("::")[-2], k["name"] == "set_option_int" and k["value"] == exp, k["value"], "stored as %s via %s, expected %s" % (k["value"], k["name"], exp), k["loc"])
+            # None when unset, else as_micros() narrowed to i64 (dropped when it does not fit) — however the Option chain is spelt
+            from .. import optnorm
+            vt = k["bv"].trace_op(k["t"]["args"][2]) if len(k["t"].get("args", [])) > 2 else ("undef",)
+            got = optnorm.option_desc(W, k["bv"], vt)
+            exp = "?ok(i64::try_from(as_micros(param1.0.state.server_dictated_poll_interval@Some.0)))|None"
+            R.check("C07-R5", "writer:" + k["bv"].name.split("::")[-2], k["name"] == "set_option_int" and got == exp, got, "stored as %s via %s, expected %s" % (got, k["name"], exp), k["loc"])
         for k in rd:
             v = k["bv"]
             # find the field of the ProtocolState aggregate
